@@ -103,7 +103,9 @@ func TestVerifC39Race(t *testing.T) {
 			}
 		}
 		r.Eval(1)
-		r.Distinct(fmt.Sprintf("served=%d", len(served)))
+		// fixed keys: the counts of a free-running pass must not depend on timing
+		r.Distinct("consumers-vs-worker")
+		r.Distinct("stop-resume")
 	}
 	r.Outcome("completed")
 	r.Sample("pool size 2, 1 preloaded + 8 generated parameters, 2 consumers x 30 GetNow, stop/resume, real goroutines under -race")
